@@ -17,8 +17,11 @@ import (
 	"time"
 
 	"github.com/risor-io/risor"
+	"github.com/risor-io/risor/compiler"
 	"github.com/risor-io/risor/object"
 	ros "github.com/risor-io/risor/os"
+	"github.com/risor-io/risor/parser"
+	"github.com/risor-io/risor/vm"
 )
 
 type N = map[string]any
@@ -119,6 +122,87 @@ func Eval(src string, eo EvalOpts) (obs N) {
 		return N{"k": "raise", "v": ErrKind(err), "msg": err.Error(), "out": out}
 	}
 	return N{"k": "ok", "v": Project(res, 8), "out": out}
+}
+
+// EvalRoute runs src through one of the other host entry points; the outcome must be the one Eval gives.
+//
+//	"vmnew"    parser.Parse + compiler.Compile + vm.New + Run + TOS (the low-level API)
+//	"evalcode" compile, then risor.EvalCode
+//	"withvm"   risor.Eval with WithVM of a VM that evaluated another program before
+//	"runcode"  vm.NewEmpty + RunCode, twice (the second run is the one observed)
+func EvalRoute(src string, route string) (obs N) {
+	stdout := ros.NewBufferFile(nil)
+	ctx, cancel := context.WithTimeout(context.Background(), 3*time.Second)
+	defer cancel()
+	vos := ros.NewVirtualOS(ctx, ros.WithStdout(stdout))
+	defer func() {
+		if r := recover(); r != nil {
+			obs = N{"k": "gopanic", "msg": fmt.Sprint(r), "out": Cps(string(stdout.Bytes())), "route": route}
+		}
+	}()
+	opts := []risor.Option{risor.WithOS(vos)}
+	cfg := risor.NewConfig(opts...)
+	compile := func() (*compiler.Code, error) {
+		prog, err := parser.Parse(ctx, src)
+		if err != nil {
+			return nil, err
+		}
+		return compiler.Compile(prog, cfg.CompilerOpts()...)
+	}
+	var res object.Object
+	var err error
+	skip := 0 // bytes of output written by a warm-up run
+	switch route {
+	case "vmnew":
+		var code *compiler.Code
+		if code, err = compile(); err == nil {
+			machine := vm.New(code, cfg.VMOpts()...)
+			if err = machine.Run(ctx); err == nil {
+				if tos, ok := machine.TOS(); ok {
+					res = tos
+				} else {
+					res = object.Nil
+				}
+			}
+		}
+	case "evalcode":
+		var code *compiler.Code
+		if code, err = compile(); err == nil {
+			res, err = risor.EvalCode(ctx, code, opts...)
+		}
+	case "withvm":
+		var machine *vm.VirtualMachine
+		if machine, err = vm.NewEmpty(); err == nil {
+			if _, err = risor.Eval(ctx, "warm := [1, 2]\nwarm.append(3)\nlen(warm)", append(opts, risor.WithVM(machine))...); err == nil {
+				res, err = risor.Eval(ctx, src, append(opts, risor.WithVM(machine))...)
+			}
+		}
+	case "runcode":
+		var code *compiler.Code
+		if code, err = compile(); err == nil {
+			var machine *vm.VirtualMachine
+			if machine, err = vm.NewEmpty(); err == nil {
+				if err = machine.RunCode(ctx, code, cfg.VMOpts()...); err == nil {
+					skip = len(stdout.Bytes())
+					if err = machine.RunCode(ctx, code, cfg.VMOpts()...); err == nil {
+						if tos, ok := machine.TOS(); ok {
+							res = tos
+						} else {
+							res = object.Nil
+						}
+					}
+				}
+			}
+		}
+	}
+	out := Cps(string(stdout.Bytes()[skip:]))
+	if err != nil {
+		if ctx.Err() != nil {
+			return N{"k": "timeout", "out": out, "route": route}
+		}
+		return N{"k": "raise", "v": ErrKind(err), "msg": err.Error(), "out": out, "route": route}
+	}
+	return N{"k": "ok", "v": Project(res, 8), "out": out, "route": route}
 }
 
 // ---------------------------------------------------------------------------
